@@ -277,8 +277,9 @@ def run(ctx):
     check_purity(ctx)
     check_symmetry(ctx)
     check_subdistribution(ctx)
-    check_pair(ctx, R5, "outcome-distribution", f"{MOD}:save_measurement_outcome_distribution", f"{MOD}:load_measurement_outcome_distribution", None)
-    check_pair(ctx, R5, "outcome-distributions", f"{MOD}:save_measurement_outcome_distributions", f"{MOD}:load_measurement_outcome_distributions", None)
+    legacy = {("bitstring_distribution",): "legacy key of files written by older versions; read first, never written"}
+    check_pair(ctx, R5, "outcome-distribution", f"{MOD}:save_measurement_outcome_distribution", f"{MOD}:load_measurement_outcome_distribution", None, allow_unwritten=legacy)
+    check_pair(ctx, R5, "outcome-distributions", f"{MOD}:save_measurement_outcome_distributions", f"{MOD}:load_measurement_outcome_distributions", None, allow_unwritten=legacy)
     ctx.floor("C17-D1", 12)
     ctx.floor("C17-D2", 14)
     ctx.floor("C17-D3", 1)
